@@ -17,6 +17,7 @@ from gwf.core import Target
 from gwf.exceptions import GWFError, WorkflowError
 
 META = {
+    "solver_reasoned": 'E2: unbounded strings in the regex theory; Q19p: one symbolic character (code point); nesting depth and map item count (symbolic ints).',
     "real": ["gwf.utils.is_valid_name", "gwf.core.Target.__init__ (validators)", "gwf.core._check_path/_has_nonprintable_char/_flatten/_norm_path", "gwf.workflow.Workflow.target/"
              "target_from_template/map/_add_target", "gwf.utils.find_workflow", "gwf.cli.main (body)", "gwf.backends.slurm.SlurmOps.compile_script (cd target)"],
     "stubs": ["os.getcwd (selector over invoking directories)", "VFS for workflow-file lookup and the project state directory", "cli.configure_logging recorded, click.confirm scripted",
